@@ -70,6 +70,7 @@ func runC15(c *ctx) {
 	}
 	c.c15Generic(12)
 	c.c15Messages()
+	c.c15SessionIDs()
 	c.c15Generic(0)
 	// everything below is too expensive to be re-evaluated with vm_compute: stop logging cases for cases.v
 	c.m.MaxLog = len(c.m.Log)
@@ -291,7 +292,7 @@ func c15GenSlice(r *rand.Rand, big bool) []byte {
 }
 
 func c15GenID(r *rand.Rand) (id string, validUTF8 bool) {
-	ids := []string{"", "a", "alice", "bob", "p-0123456789012345678901", "é", "名前", "𝔾roup", "a b", "a\x00b", strings.Repeat("x", 300)}
+	ids := []string{"a", "alice", "bob", "p-0123456789012345678901", "é", "名前", "𝔾roup", "a b", "a\x00b", strings.Repeat("x", 300)}
 	if r.Intn(8) == 0 {
 		bad := []string{"a\xff", "\xc0\x80", "\xed\xa0\x80", "\xf4\x90\x80\x80", "\xe2\x82", "ok\x80"}
 		return bad[r.Intn(len(bad))], false
@@ -341,17 +342,19 @@ func (c *ctx) c15OneMessage(m *protocol.Message, class string, valid bool, prefi
 				c15Replay{Type: "protocol.Message", What: "unmarshal", Bytes: hex.EncodeToString(gb), Go: fmt.Sprintf("%s err=%v panic=%s", c15MsgSx(m0), uerr, pan), Model: urep.String()})
 		}
 	}
-	// property: what was written is what comes back
-	if pan != "" || uerr != nil || !c15MsgEq(m0, m) {
-		key, desc := "C15/protocol.Message/From/bad-value", fmt.Sprintf("a message whose party id is not valid UTF-8 is written by MarshalBinary without error and cannot be restored (UnmarshalBinary: %v)", uerr)
-		if valid {
-			key, desc = "C15/protocol.Message/roundtrip/"+class, "a message does not survive MarshalBinary -> UnmarshalBinary"
-		}
+	// property: what a session can have written is what comes back (ids of a session are valid UTF-8 and not empty:
+	// round.NewSession refuses others, see c15SessionIDs)
+	if valid && (pan != "" || uerr != nil || !c15MsgEq(m0, m)) {
+		desc := "a message does not survive MarshalBinary -> UnmarshalBinary"
 		if pan != "" {
 			desc += " (panic: " + pan + ")"
 		}
-		c.res.Violate("property", key, desc, c15Replay{Type: "protocol.Message", Field: "From", Corruption: "invalid-utf8", Bytes: hex.EncodeToString(gb), What: "roundtrip",
+		c.res.Violate("property", "C15/protocol.Message/roundtrip/"+class, desc, c15Replay{Type: "protocol.Message", Bytes: hex.EncodeToString(gb), What: "roundtrip",
 			Problems: []string{fmt.Sprintf("restored %s, error %v", c15MsgSx(m0), uerr)}})
+	}
+	if !valid && pan == "" && uerr == nil {
+		c.res.Violate("property", "C15/protocol.Message/From/bad-value", "bytes that are not a restorable message (bad party id / no sender / no protocol) are accepted with a nil error",
+			c15Replay{Type: "protocol.Message", Field: "From", Corruption: "invalid-utf8", Bytes: hex.EncodeToString(gb), What: "roundtrip"})
 	}
 	_ = r
 }
@@ -366,7 +369,16 @@ func (c *ctx) c15Messages() {
 	for i := 0; i < n; i++ {
 		from, v1 := c15GenID(r)
 		to, v2 := c15GenID(r)
-		proto := []string{"", "cmp/sign", "frost/keygen-taproot", "doerner/keygen", "π"}[r.Intn(5)]
+		proto := []string{"cmp/keygen", "cmp/sign", "frost/keygen-taproot", "doerner/keygen", "π"}[r.Intn(5)]
+		empties := r.Intn(12) == 0
+		if empties {
+			// not a message any session produces: no sender or no protocol; UnmarshalBinary refuses these
+			if r.Intn(2) == 0 {
+				from = ""
+			} else {
+				proto = ""
+			}
+		}
 		rn := rounds[r.Intn(len(rounds))]
 		if r.Intn(3) == 0 {
 			rn = uint16(r.Intn(65536))
@@ -377,11 +389,13 @@ func (c *ctx) c15Messages() {
 		class := "message/valid-utf8"
 		if !(v1 && v2) {
 			class = "message/invalid-utf8-id"
+		} else if empties {
+			class = "message/no-sender-or-protocol"
 		}
 		if big {
 			class += "/long"
 		}
-		c.c15OneMessage(m, class, v1 && v2, r.Intn(2) == 0)
+		c.c15OneMessage(m, class, v1 && v2 && !empties, r.Intn(2) == 0)
 	}
 	// every round number once (thorough) / a lattice (quick)
 	step := 257
@@ -431,7 +445,7 @@ func (c *ctx) c15Messages() {
 		}()
 		c.res.Case("message/malformed", hex.EncodeToString(g), true)
 		urep, err := c.m.Call("cbor.message_unmarshal", sx.List(c15MsgSx(&protocol.Message{}), sx.Bytes(g)))
-		if err == nil && names[i] != "empty-map" { // {} is inside fxamacker's leniency (missing keys), outside the modelled shape
+		if err == nil {
 			ok := pan == "" && urep.L[0].Equal(c15MsgSx(m0)) && urep.L[1].AsBool() == (uerr != nil)
 			c.res.Corr(ok)
 			if !ok {
@@ -1137,4 +1151,30 @@ func c15CmpProj(cf *cmp.Config) (out string) {
 			p.Pedersen.N().Big(), p.Pedersen.S().Big(), p.Pedersen.T().Big())
 	}
 	return sb.String()
+}
+
+// c15SessionIDs: party ids that protocol.Message cannot carry (not valid UTF-8) must be refused when a session starts;
+// otherwise the library writes messages that it cannot restore
+func (c *ctx) c15SessionIDs() {
+	for _, bad := range []string{"a\xff", "\xc0\x80", "\xed\xa0\x80", "ok\x80"} {
+		ids := []party.ID{party.ID(bad), "bob"}
+		var err error
+		pan := ""
+		func() {
+			defer func() {
+				if p := recover(); p != nil {
+					pan = fmt.Sprint(p)
+				}
+			}()
+			_, err = verifhook.NewSession(verifhook.RoundInfo{ProtocolID: "c15/ids", FinalRoundNumber: 1, SelfID: "bob", PartyIDs: ids, Threshold: 1, Group: c15Group}, []byte("sid"), nil)
+		}()
+		c.res.Case("session-ids/invalid-utf8", bad, true)
+		if err == nil || pan != "" {
+			m := &protocol.Message{From: party.ID(bad), Protocol: "c15/ids", RoundNumber: 1}
+			gb, _ := m.MarshalBinary()
+			c.res.Violate("property", "C15/protocol.Message/From/bad-value",
+				"a session accepts a party id that is not valid UTF-8; messages from that party are written by MarshalBinary and cannot be restored by UnmarshalBinary "+pan,
+				c15Replay{Type: "protocol.Message", Field: "From", Corruption: "invalid-utf8", Bytes: hex.EncodeToString(gb), What: "roundtrip"})
+		}
+	}
 }
